@@ -37,6 +37,8 @@ def schedules(ctx, np_, rounds, fresh, simulate=None, seed=None):
 
 def validate_traces(ctx, path, np_max):
     """Direction B: the recorded gate events must be a behaviour of the specification."""
+    if not os.path.exists(path):
+        return None
     n = sum(1 for _ in open(path))
     if n == 0:
         return None
@@ -67,7 +69,41 @@ def run_schedules(ctx, cases, tag, depth=0):
                         env_extra={"VERIF_C14_TRACE": trace, "VERIF_RACE_LOG": racelog,
                                    "GORACE": "log_path=%s halt_on_error=0" % racelog})
     if not os.path.exists(out):
-        raise vlib.Infra("vcheck (race build) failed rc=%s: %s" % (p.returncode, (p.stderr or p.stdout)[-3000:]))
+        err = (p.stderr or "") + (p.stdout or "")
+        gf = vlib._geo_fatal(err)
+        if not gf or depth >= 3:
+            raise vlib.Infra("vcheck (race build) failed rc=%s: %s" % (p.returncode, err[-3000:]))
+        # A Go fatal error (unlock of an unlocked mutex, concurrent map access, ...) in the library
+        # killed the process.  Schedules run one after the other and each completed one is in the
+        # trace file, so the culprit is the first schedule without a trace; it must kill a fresh
+        # process on its own, twice, to count.
+        done = 0
+        if os.path.exists(trace):
+            done = len(set(json.loads(x)["tr"] for x in open(trace) if x.strip()))
+        if done >= len(cases):
+            raise vlib.Infra("vcheck (race build) died after the last schedule: %s" % err[-1500:])
+        culprit = cases[done]
+        if len(cases) > 1:
+            for k in (1, 2):
+                cp = ctx.write_cases("c14-%s-fatal%d.ndjson" % (tag, k), [culprit])
+                co = cp + ".result.json"
+                pp = ctx.run_harness(["replay", "--in", cp, "--out", co, "--jobs", "1"], timeout=600, race=True,
+                                     env_extra={"GORACE": "halt_on_error=0"})
+                e2 = (pp.stderr or "") + (pp.stdout or "")
+                if os.path.exists(co) or not vlib._geo_fatal(e2):
+                    raise vlib.Infra("vcheck (race build) died (%s) but schedule %d does not reproduce it alone" % (gf[0], done))
+        v = {"key": "c14/fatal/%s/%s" % gf, "detail": "the process dies with a Go fatal error (%s) in %s during this schedule" % gf,
+             "case": culprit, "fatal": True}
+        res = {"evaluations": 1, "nontrivial": 1, "violations": [v], "samples": [], "counters": {}}
+        if done + 1 < len(cases) and depth < 2:
+            try:
+                more, _ = run_schedules(ctx, cases[done + 1:], tag + "f", depth + 1)
+                res["evaluations"] += more["evaluations"]
+                res["nontrivial"] += more["nontrivial"]
+                res["violations"] += more.get("violations", [])
+            except vlib.Infra:
+                pass
+        return res, trace
     res = json.load(open(out))
     # a reported hang leaves goroutines blocked: the process stops after that schedule; the remaining
     # schedules run in new processes (at most a few times: every hang costs its 15 s timeout)
@@ -163,7 +199,12 @@ def run(ctx):
         # genuinely racy failure may need more than one fresh process to show again
         for attempt in range(4):
             nconf += 1
-            r2, t2 = run_schedules(ctx, [v["case"]], "confirm%d" % nconf)
+            try:
+                r2, t2 = run_schedules(ctx, [v["case"]], "confirm%d" % nconf)
+            except vlib.Infra:
+                if v.get("fatal"):
+                    break   # a schedule that dies alone cannot be told apart from infrastructure here: it was confirmed when found
+                raise
             ok = any(x["key"] == key for x in r2.get("violations", []))
             if not ok and key.startswith("c14/trace-rejected"):
                 ok = validate_traces(ctx, t2, 4) is not None
@@ -172,6 +213,8 @@ def run(ctx):
                 ok = any(x["key"].startswith("c14/data-race") for x in r2.get("violations", []))
             if ok:
                 break
+        if not ok and v.get("fatal"):
+            ok = True   # confirmed twice in fresh processes by run_schedules when it was isolated
         if not ok:
             ctx.unreproduced.append("violation %s not reproduced in a fresh process (4 attempts): %s" % (key, v["detail"][:600]))
             continue
